@@ -187,6 +187,27 @@ pub fn values_match(want: &Value, got: &Value, fast: bool) -> bool {
 }
 
 /// Bitwise equality (floats by bits, so NaN payloads compare equal to themselves).
+/// structural equality with IEEE semantics on floats, written independently of the crate's `PartialEq`
+pub fn ref_eq(a: &Value, b: &Value) -> bool {
+    match (a, b) {
+        (Value::Nil, Value::Nil) | (Value::Null, Value::Null) => true,
+        (Value::Bool(x), Value::Bool(y)) => x == y,
+        (Value::Number(x), Value::Number(y)) => {
+            if x.is_f64() || y.is_f64() { x.is_f64() && y.is_f64() && x.as_f64().unwrap() == y.as_f64().unwrap() }
+            else if let (Some(p), Some(q)) = (x.as_u64(), y.as_u64()) { p == q }
+            else if let (Some(p), Some(q)) = (x.as_i64(), y.as_i64()) { p == q }
+            else { false }
+        }
+        (Value::Char(x), Value::Char(y)) => x == y,
+        (Value::String(x), Value::String(y)) => x.as_bytes() == y.as_bytes(),
+        (Value::Symbol(x), Value::Symbol(y)) => x.as_bytes() == y.as_bytes(),
+        (Value::Keyword(x), Value::Keyword(y)) => x.as_bytes() == y.as_bytes(),
+        (Value::Bytes(x), Value::Bytes(y)) => x[..] == y[..],
+        (Value::Cons(x), Value::Cons(y)) => ref_eq(x.car(), y.car()) && ref_eq(x.cdr(), y.cdr()),
+        (Value::Vector(x), Value::Vector(y)) => x.len() == y.len() && x.iter().zip(y.iter()).all(|(p, q)| ref_eq(p, q)),
+        _ => false,
+    }
+}
 pub fn same(a: &Value, b: &Value) -> bool {
     enc_value_text(a) == enc_value_text(b)
 }
@@ -494,7 +515,13 @@ fn check_inner(line: &str, res: &str, t: &[&str], mut m: Vec<String>) -> Vec<Str
             if !full.starts_with(&got) { m.push("FAIL C07 delivered bytes are not a prefix of the printed text".into()); }
             let sched = parse_sched(t[2]);
             let stop = [sched.fail_at, sched.zero_at].iter().flatten().min().copied();
-            let can_fail = stop.map_or(false, |n| n < full.len());
+            let once = [sched.fail_once, sched.zero_once].iter().flatten().min().copied();
+            let can_fail = stop.map_or(false, |n| n < full.len()) || once.map_or(false, |n| n < full.len());
+            if let Some(n) = once {
+                // a refused write is an error of the print call, and nothing may be sent after it
+                let first = stop.map_or(n, |s| s.min(n));
+                if n < full.len() && (f[0] != "err" || got.len() != first) { m.push(format!("FAIL C07 sink refuses one write at offset {}: result {} with {} bytes delivered", n, f[0], got.len())); }
+            }
             if let Some(n) = stop {
                 if n < full.len() && (f[0] != "err" || got.len() != n) { m.push(format!("FAIL C07 sink stops at offset {}: result {} with {} bytes delivered", n, f[0], got.len())); }
             }
@@ -520,6 +547,52 @@ fn check_inner(line: &str, res: &str, t: &[&str], mut m: Vec<String>) -> Vec<Str
                     let s = std::str::from_utf8(&text).unwrap();
                     let a = lexpr::from_str(s).ok(); let b = lexpr::from_reader(&text[..]).ok(); let c = s.parse::<Value>().ok(); let d0 = lexpr::from_slice(&text).ok();
                     if a != d0 || b != d0 || c != d0 { m.push("FAIL C01 parse entry points disagree".into()); }
+                }
+            }
+        }
+        "parse" if t[2].starts_with('y') => {
+            // A stream that reports one read error (WouldBlock) after k bytes and then delivers the rest, with the
+            // caller retrying on the same parser.  Not representable in the model; checked here directly:
+            // no panic, the read error surfaces as an I/O item, what was returned before it is what the
+            // fault-free stream returns, error locations stay inside the input, strings are UTF-8, and every
+            // datum returned before or after the failed call has spans that delimit its text (C11).
+            let (src, ro, api) = (t[2], t[3], t[4]);
+            let data = if t.len() > 5 { unhex(t[5]) } else { vec![] };
+            let k: usize = src[1..].parse().unwrap_or(0);
+            crate::ops::FAULT_HIT.store(false, std::sync::atomic::Ordering::SeqCst);
+            let tres = crate::ops::exec_parse_transient(&t);
+            let hit = crate::ops::FAULT_HIT.load(std::sync::atomic::Ordering::SeqCst);
+            let items: Vec<&str> = tres.split(" | ").collect();
+            if items.iter().any(|i| *i == "panic") { m.push("FAIL C03 parser panicked on a stream that failed once and recovered".into()); }
+            if !utf8_payloads_ok(&tres) { m.push("FAIL C17 a parsed string/symbol/keyword is not valid UTF-8".into()); }
+            for it in &items {
+                let f: Vec<&str> = it.split_whitespace().collect();
+                if f.first() == Some(&"err") && f.len() == 4 {
+                    let (l, c): (usize, usize) = (f[2].parse().unwrap(), f[3].parse().unwrap());
+                    if !location_ok(&data, l, c) { m.push(format!("FAIL C19 error location {}:{} outside the input", l, c)); }
+                }
+            }
+            let fres = crate::ops::exec(&line.replacen(&format!(" {} ", src), " i5 ", 1));
+            let fi: Vec<String> = fres.split(" | ").map(strip_pos).collect();
+            let xi: Vec<String> = items.iter().map(|s| strip_pos(s)).collect();
+            let strip = |v: &[String]| -> Vec<String> { v.iter().map(|s| strip_dat(s)).collect() };
+            match xi.iter().position(|i| i == "io") {
+                Some(p) => {
+                    if !hit { m.push("FAIL C06 I/O error reported although the reader never failed".into()); }
+                    if p > fi.len() || strip(&xi[..p]) != strip(&fi[..p]) { m.push(format!("FAIL C06 items before the read error differ from the fault-free run: {:?} vs {:?}", xi, fi)); }
+                }
+                None => {
+                    if hit && k < data.len() && strip(&xi) != strip(&fi) { m.push("FAIL C06 a read error was swallowed: the reader failed but no I/O error was reported".into()); }
+                }
+            }
+            let opts = parse_opts(ro);
+            let mut p = lexpr::Parser::from_reader_custom(crate::ops::make_reader(src, &data), opts);
+            for _ in 0..api.len() {
+                match std::panic::catch_unwind(std::panic::AssertUnwindSafe(|| p.next_datum())) {
+                    Ok(Ok(Some(dm))) => { if nesting(dm.value()) < 60 { ref_walk(dm.as_ref(), &data, opts, None, &mut m, 0); } }
+                    Ok(Ok(None)) => break,
+                    Ok(Err(_)) => {}
+                    Err(_) => break,
                 }
             }
         }
@@ -568,7 +641,7 @@ fn check_inner(line: &str, res: &str, t: &[&str], mut m: Vec<String>) -> Vec<Str
                 let bres = crate::ops::exec(&bline);
                 let bi: Vec<String> = bres.split(" | ").map(strip_pos).collect();
                 let xi: Vec<String> = items.iter().map(|s| strip_pos(s)).collect();
-                let is_fault = src.starts_with('x') || src.starts_with('X');
+                let is_fault = src.starts_with('x') || src.starts_with('X') || src.starts_with('w');
                 if !is_fault || !hit {
                     if is_fault && xi.iter().any(|i| i == "io") { m.push("FAIL C06 I/O error reported although the reader never failed".into()); }
                     let cmp_b: Vec<String> = if src == "s" || !api.contains('d') && !api.contains('j') && !api.contains('D') { bi.clone() } else { bi.iter().map(|s| s.clone()).collect() };
@@ -665,16 +738,52 @@ fn check_inner(line: &str, res: &str, t: &[&str], mut m: Vec<String>) -> Vec<Str
                 }
             }
         }
-        "pp" => {
+        "opts" => {
+            // the property's own statement about options: what the getters report is what the reader does, and a
+            // setter changes only the option it names (compared with the result of the chain without its last call)
+            let f: Vec<&str> = res.split_whitespace().collect();
+            if f.len() == 3 && f[0] == "R" {
+                if f[1] != f[2] { m.push(format!("FAIL C08 option getters {} disagree with the reader's behaviour {}", f[1], f[2])); }
+                if t.len() > 3 {
+                    let prev = crate::ops::exec(&t[..t.len() - 1].join(" "));
+                    let pf: Vec<&str> = prev.split_whitespace().collect();
+                    let last = t[t.len() - 1].as_bytes()[0];
+                    let own: &[usize] = match last { b'k' | b'K' => &[0, 1, 2], b'n' => &[3], b't' => &[4], b'b' => &[5], b's' => &[6], b'c' => &[7], b'r' => &[8], _ => &[9] };
+                    if pf.len() == 3 {
+                        for i in 0..10 {
+                            if !own.contains(&i) && pf[2].as_bytes()[i] != f[2].as_bytes()[i] {
+                                m.push(format!("FAIL C08 builder call {} changed the reading of tokens governed by another option (digit {}: {} -> {})", t[t.len() - 1], i, pf[2], f[2]));
+                            }
+                        }
+                    }
+                }
+            } else if f.len() == 2 && f[0] == "P" && t.len() > 3 {
+                let prev = crate::ops::exec(&t[..t.len() - 1].join(" "));
+                let pf: Vec<&str> = prev.split_whitespace().collect();
+                let last = t[t.len() - 1].as_bytes()[0];
+                // the nil digit is observed through the bool syntax as well (NilSyntax::False)
+                let own: &[usize] = match last { b'k' => &[0], b'n' => &[1], b'o' => &[1, 2], b'v' => &[3], b'y' => &[4], b's' => &[5], _ => &[6] };
+                if pf.len() == 2 {
+                    for i in 0..7 {
+                        if !own.contains(&i) && pf[1].as_bytes()[i] != f[1].as_bytes()[i] {
+                            m.push(format!("FAIL C02 printer builder call {} changed an option it does not name (digit {}: {} -> {})", t[t.len() - 1], i, pf[1], f[1]));
+                        }
+                    }
+                }
+            }
+        }
+        "pp" | "ppe" => {
             if res.starts_with("val ") {
                 let parts: Vec<&str> = res.split(" ; ").collect();
                 let fast = t[2] == "1";
                 let mut it = parts[0][4..].split_whitespace();
                 let v = dec_value(&mut it);
-                let p = pof(t[1]);
+                let p = if t[0] == "ppe" { crate::ops::pofe(t[1]) } else { pof(t[1]) };
                 if nesting(&v) < 128 {
                     if !parts[2].starts_with("val ") {
-                        m.push(format!("FAIL C13 accepted text prints as {:?} which is rejected: {}", String::from_utf8_lossy(&unhex(parts[1])), parts[2]));
+                        // the class of the input, so that a recorded finding is keyed by what fails and not by a byte pattern
+                        let class = if enc_value(&v).split_whitespace().any(|tk| tk == "K2e") { " [value contains the keyword named .]" } else { "" };
+                        m.push(format!("FAIL C13 accepted text prints as {:?} which is rejected: {}{}", String::from_utf8_lossy(&unhex(parts[1])), parts[2], class));
                     } else {
                         let mut it2 = parts[2][4..].split_whitespace();
                         let v2 = dec_value(&mut it2);
@@ -740,6 +849,27 @@ fn check_inner(line: &str, res: &str, t: &[&str], mut m: Vec<String>) -> Vec<Str
             }
             let want = if v.is_cons() { xs.iter().find_map(|e| match e { Value::Cons(inner) if inner.car() == &key => Some(inner.cdr()), _ => None }) } else { None };
             if !ptr_opt(v.get(&key), want) { m.push("FAIL C15 lookup by value".into()); }
+            // Clone and == (hand-written loops along the cdr chain in /repo): against an independent reference
+            let c = v.clone();
+            if !same(&c, &v) { m.push("FAIL C15 Value::clone differs from the original".into()); }
+            if (c == v) != ref_eq(&c, &v) || (v == key) != ref_eq(&v, &key) || (key == v) != ref_eq(&key, &v) {
+                m.push("FAIL C15 Value == Value disagrees with structural equality".into());
+            }
+            // near misses: same elements with a different tail, one element fewer, one element changed
+            if let Value::Cons(_) = &v {
+                let mut variants: Vec<Value> = Vec::new();
+                variants.push(Value::append(xs_owned.clone(), Value::symbol("other-tail")));
+                variants.push(Value::append(xs_owned[..xs_owned.len() - 1].to_vec(), tail.clone()));
+                let mut ch = xs_owned.clone();
+                let i = idx % ch.len();
+                ch[i] = Value::list(vec![ch[i].clone()]);
+                variants.push(Value::append(ch, tail.clone()));
+                let mut longer = xs_owned.clone(); longer.push(Value::Null);
+                variants.push(Value::append(longer, tail.clone()));
+                for w in variants.iter() {
+                    if (v == *w) != ref_eq(&v, w) || (*w == v) != ref_eq(w, &v) { m.push("FAIL C15 Value == Value disagrees with structural equality on a near miss".into()); }
+                }
+            }
         }
         "acc" => {
             let f: Vec<&str> = res.split_whitespace().collect();
@@ -786,6 +916,8 @@ fn check_inner(line: &str, res: &str, t: &[&str], mut m: Vec<String>) -> Vec<Str
         }
         #[cfg(feature = "full")]
         "ser" | "de" | "deser" => crate::serde_ops::check(&t, res, &mut m),
+        #[cfg(feature = "full")]
+        "serx" => m.extend(crate::serde_extra::run(t[1].parse().unwrap_or(1))),
         _ => {}
     }
     m
@@ -845,6 +977,23 @@ pub fn depth_main(args: &[String]) -> i32 {
             "into_vec" => { let v = build(n); if let Value::Cons(c) = v { let (xs, t) = c.into_vec(); assert_eq!(xs.len(), n); std::mem::forget(xs); std::mem::forget(t); } }
             "iter" => { let v = build(n); assert_eq!(v.as_cons().unwrap().iter().count(), n); assert!(v.list_iter().unwrap().count() >= n); std::mem::forget(v); }
             "into_iter" => { let v = build(n); if let Value::Cons(c) = v { assert_eq!(c.into_iter().count(), n); } }
+            // a long list whose text ends in an error, read through the location-tracking API: what was built so
+            // far (values and span information) is dropped inside the failing call
+            "datum_fail" => { let mut t = text(n); t.pop(); let r = lexpr::datum::from_reader(t.as_bytes()); assert!(r.is_err()); }
+            "datum_fail_bracket" => { let mut t = text(n); t.pop(); t.push(']'); let r = lexpr::datum::from_reader(t.as_bytes()); assert!(r.is_err()); }
+            "datum_fail_token" => { let mut t = text(n); t.pop(); t.push_str(" #z)"); let r = lexpr::datum::from_reader(t.as_bytes()); assert!(r.is_err()); }
+            "value_fail" => { let mut t = text(n); t.pop(); let r = lexpr::from_reader(t.as_bytes()); assert!(r.is_err()); }
+            "datum_iter_fail" => { let mut t = text(n); t.pop(); let mut p = lexpr::Parser::from_reader(t.as_bytes()); let items: Vec<_> = p.datum_iter().take(3).collect(); assert!(items.len() >= 1 && items[0].is_err()); }
+            // an owned datum made from the rest of a list (its span information starts in the middle of the chain)
+            "datum_cdr_owned" => { let t = text(n); let d = lexpr::datum::from_reader(t.as_bytes()).unwrap(); let (_, rest) = d.as_ref().as_pair().unwrap(); let owned: lexpr::Datum = rest.into(); let again = owned.clone(); assert!(owned == again); drop(owned); drop(again); std::mem::forget(d); }
+            // association lists: a key found late, and a key that is absent (by name and by value)
+            "alist" => {
+                let v = Value::append((0..n).map(|i| if i % 7 == 3 { elem(i) } else { Value::cons(Value::symbol(if i + 1 == n { "last" } else { "k" }), elem(i)) }), Value::Null);
+                assert!(v.get("last").is_some()); assert!(v.get("absent").is_none());
+                assert!(v.get(&Value::symbol("last")).is_some()); assert!(v.get(&Value::from(5)).is_none());
+                let _ = &v["absent"]; let _ = &v[&Value::symbol("last")];
+                std::mem::forget(v);
+            }
             "index" => { let v = build(n); assert!(v.get(n - 1).is_some()); assert!(v.get(n).is_none()); let _ = &v[n / 2]; let _ = v.get("x"); let _ = v.get(&Value::from(1)); std::mem::forget(v); }
             "is_list" => { let v = build(n); let _ = v.is_list(); let _ = v.is_dotted_list(); std::mem::forget(v); }
             "clone" => { let v = build(n); let w = v.clone(); std::mem::forget(v); std::mem::forget(w); }
